@@ -470,5 +470,12 @@ func SkipValue(src string, pos int) (ret int, start int) {
 	return ret, pos
 }
 
+// Unquote converts a quoted JSON string literal (including the surrounding quotes) into the string it denotes.
+// Unlike strconv.Unquote it follows JSON, not Go, syntax: \/ and \uXXXX surrogate pairs are legal escapes.
+func Unquote(s string) (string, bool) {
+	v, ok := unquoteBytes([]byte(s))
+	return string(v), ok
+}
+
 //go:linkname unquoteBytes encoding/json.unquoteBytes
 func unquoteBytes(s []byte) (t []byte, ok bool)
